@@ -443,7 +443,7 @@ func ruleKeys(c *Ctx) {
 					continue
 				}
 				sb, sk, ok := isSet(c2.Common())
-				if ok && sameBase(sb, rb) && sk == rk {
+				if ok && sameBase(sb, rb) && sameKeyValue(sk, rk) {
 					bad = "the same key is removed and then set again on the same object (at " + b.posOf(ins) + "): the member moves to the end of the object instead of keeping its position"
 				}
 			}
@@ -725,6 +725,10 @@ func objNonNilOnEdge(cond ssa.Value, si int, arg ssa.Value) bool {
 func ruleMapOrder(c *Ctx) {
 	for _, b := range c.bodies() {
 		l := c.L
+		ea := c.errFor(b)
+		b.errChainNonEmpty = func(v ssa.Value) bool {
+			return len(ea.chain(v, map[ssa.Value]bool{})) > 0
+		}
 		// reachability from the byte-exact entry points
 		var roots []*ssa.Function
 		for _, fn := range b.exportedAPI(b.Lib) {
@@ -859,6 +863,11 @@ func (b *Body) orderSensitiveEffect(fn *ssa.Function, r *ssa.Range) string {
 							continue
 						}
 						if isErrorType(rv.Type()) {
+							// an error made inside the loop: which member fails first decides which
+							// error the caller sees (an error that can never be non-nil does not count)
+							if vi, ok := rv.(ssa.Instruction); ok && (inLoop[vi.Block()] || s.Dominates(vi.Block())) && b.errChainNonEmpty != nil && b.errChainNonEmpty(rv) {
+								eff = "early return of an error made inside the loop at " + b.posOf(ret) + " (when two members fail, the one visited first is reported)"
+							}
 							continue
 						}
 						// a value computed before the loop is order-insensitive
@@ -1104,4 +1113,28 @@ func reachableAfterSameIteration(from ssa.Instruction) map[ssa.Instruction]bool 
 		walk(s)
 	}
 	return out
+}
+
+
+// sameKeyValue: the same SSA value, or two calls of the same function (a token
+// decoder) on the same argument.
+func sameKeyValue(a, b ssa.Value) bool {
+	if a == b {
+		return true
+	}
+	ca, ok1 := a.(*ssa.Call)
+	cb, ok2 := b.(*ssa.Call)
+	if !ok1 || !ok2 {
+		return false
+	}
+	fa, fb := ca.Call.StaticCallee(), cb.Call.StaticCallee()
+	if fa == nil || fa != fb || len(ca.Call.Args) != len(cb.Call.Args) {
+		return false
+	}
+	for i := range ca.Call.Args {
+		if ca.Call.Args[i] != cb.Call.Args[i] {
+			return false
+		}
+	}
+	return true
 }
